@@ -21,6 +21,9 @@ IDENT_POOL = [
     "user_id", "country", "age", "device", "plan", "segment", "very_long_identifier_name_0123456789",
     "elif_", "else_", "return_", "x_in", "inx", "notin", "ornot", "android_or_ios",
 ]
+# plain identifiers for checks that are not about identifier spelling
+PLAIN_IDENTS = ["x", "y", "a", "b", "u", "n", "uid", "age", "plan", "tier", "zone", "k", "m", "p", "q", "w", "z",
+                "user", "group", "country", "device", "level", "score", "bucket", "cohort", "flag"]
 # finding family K1: names the generated Python itself uses / Python reserved words
 K1_NAMES = ["kwargs", "partial", "str", "map", "deterministic_choice", "self", "class", "None", "lambda",
             "ExperimentConditionalFailedError", "choose_experiment_variant", "True", "import", "is", "for"]
